@@ -297,7 +297,7 @@ fn replay(ctx: &Ctx, case: &Value) {
             let fam: &str = families::GROWTH_FAMILIES.iter().find(|f| **f == fam).copied().unwrap_or("pointer-chain");
             run_growth(fam, case["qd1"].as_bool().unwrap_or(false), entry, l);
         } else {
-            let buf = hex::dec(case["hex"].as_str().unwrap_or(""));
+            let buf = hex::dec(case["hex"].as_str().unwrap_or("")).unwrap_or_default();
             let mut t = Tally::default();
             let k = format!("work-bound:{}", entry.class());
             judge(entry, &buf, Some(&k), true, &mut t, l, &|| byte_case(entry, &buf));
@@ -414,7 +414,7 @@ fn main() {
         if e == Entry::Message || (e == Entry::Request && qd1) {
             let pick: Vec<Value> = pts
                 .iter()
-                .filter(|p| p.0 == 1 || p.0 == 64 || p.0 == 1024 || p.0 == 4096 || Some(p) == pts.last())
+                .filter(|p| p.0 == 1 || p.0 == 64 || p.0 == 1024 || p.0 == 4096 || Some(*p) == pts.last())
                 .map(|p| json!({"n": p.0, "len": p.1, "ticks": p.2, "ticks_per_octet": ((p.2 as f64 / p.1 as f64) * 10.0).round() / 10.0}))
                 .collect();
             curves.lock().unwrap().push(json!({"family": f, "qd1": qd1, "entry": e.label(), "points": pick}));
